@@ -18,7 +18,9 @@ RULES = {
     "C01": "Leg M/R: TLC enumerates the shape space of TxFormat_MC (families: small types; every input variant x every length class "
            "{0,1,7,8,9,16} of every byte vector; outputs and 13 receipt kinds x scalar profiles {0,1,max,distinct bytes}; 5 chargeable "
            "kinds x all 64 policy masks x value profiles; kinds x all ordered pairs (thorough: triples) of the 7 input variants x length "
-           "rotations; output pairs; witness counts x lengths; script/script-data length grid; kind-specific bodies; mint) and prints "
+           "rotations; output pairs; witness counts x lengths; script/script-data length grid; kind-specific bodies; mint; thorough adds "
+           "predicate-length grids after every variant, masks x variants, input pairs x output pairs, 3-witness length cube, the full "
+           "message-data-predicate length cube) and prints "
            "Enc / Size / SizeS / Strip for each; the harness builds the real value and compares to_bytes, size, size_static, size_dynamic, "
            "decode (consumed, value minus the skip fields), and the encoding with cached metadata. Leg T: seeded factory and generated "
            "values of all 10 types, Encoded events re-derived by TLC. distinct = distinct shape keys (type, kind, policy mask, "
@@ -43,8 +45,8 @@ RULES = {
            "with the same length. distinct = distinct (type, mutation tag class, outcome, error kind) + distinct accepted value shapes",
 }
 
-PROPERTIES_WIP = ['C01', 'C02', 'C03', 'C04']
-MANIFEST_WIP = {
+PROPERTIES = ['C01', 'C02', 'C03', 'C04']
+MANIFEST = {
     'C01': dict(category='model_checking',
                 technique='TLA+ encoding algebra over schemas-as-values (Canonical.tla) + the Fuel formats as data (TxFormat.tla); TLC enumerates '
                           'the finite shape space and prints the expected bytes/sizes, which are compared with the real encoder/decoder '
@@ -53,8 +55,10 @@ MANIFEST_WIP = {
                      'through the public constructors; to_bytes / size / size_static / size_dynamic / decode(consumed, value) and the encoding '
                      'with cached metadata are compared with Enc / Size / SizeS / Strip evaluated by TLC; TLC checks alignment and size = length '
                      'on the design. Seeded TransactionFactory and generator values of all 10 types are validated by TxFormat_Trace.',
-                note='Policy values: maturity / expiration / owner range over u32 (protocol domain). Known findings: predicate variants with an '
-                     'empty predicate and message-data variants with empty data are indistinguishable on the wire (one class per variant).',
+                note='Observation: this tree has 5 output kinds and 13 receipt kinds (the property text says 6 / 12); all existing ones are '
+                     'enumerated. Policy values: maturity / expiration / owner range over u32 (protocol domain). Known findings: predicate '
+                     'variants with an empty predicate and message-data variants with empty data are indistinguishable on the wire (6 classes '
+                     'txfmt/roundtrip/Input::<Variant>/<empty vectors>; also: such an input inside a transaction makes the transaction undecodable).',
                 design_ref='4/C01'),
     'C02': dict(category='exploration',
                 technique='TLA+ Layout of valid encodings generates the adversarial mutation family (spec-generated inputs); the decoding law of '
@@ -125,7 +129,7 @@ def _vacuity(pid, thorough, lines):
         fams[ln["f"]] = fams.get(ln["f"], 0) + 1
         if "m" in ln:
             muts += 1
-    need = set(range(1, 19)) - (set() if thorough else {11, 12, 14, 15, 16, 17, 18})
+    need = set(range(1, 19)) - (set() if thorough else {11, 12, 16, 17, 18})
     if pid in ("C04", "C03"):
         need -= {1, 2, 3, 4}
     missing = sorted(need - set(fams))
